@@ -925,7 +925,7 @@ def main(ctx):
             f = job['f']
             rep = {'stream': 'mpsterm', 'sites': case['sites'], 'seed': case['seed'], 'job': job}
             err = x.get('error')
-            if err is not None and not err.startswith('ValueError'):
+            if err is not None and not err.startswith('ValueError') and not (f == 'apply' and x.get('want_norm', 1.0) < 1e-10):
                 ctx.count('mpsterm', [case['sites'], case['seed'], job], nontrivial=True)
                 ctx.fail('oracle', '%s raised %s on %s' % (f, err, job), dict(rep, traceback=x.get('tb')), match_key='C12:mpsterm:raises:' + f)
                 continue
@@ -966,7 +966,9 @@ def main(ctx):
             elif f == 'apply':
                 ctx.count('mpsterm', [case['sites'], case['seed'], job], nontrivial=x.get('want_norm', 0) > 1e-8 and not err)
                 if err:
-                    ok = ('destroys state' in err and x.get('want_norm', 1.0) < 1e-10) or (odd and not charged and 'JW' in err)
+                    # the term annihilates the state (locally: documented ValueError; only globally: the renormalisation fails), or an
+                    # open string on a chain without fermion-parity charges
+                    ok = x.get('want_norm', 1.0) < 1e-10 or (odd and not charged and 'JW' in err)
                     if not ok:
                         ctx.fail('oracle', 'apply_local_term refused %s: %s' % (job, err), rep, match_key='C12:mpsterm:refused:apply')
                     continue
